@@ -117,7 +117,9 @@ pub fn fcfg(c: &FragCase) -> FCfg {
         sps: if c.codec % 4 == 0 && c.pset_len.0 % 7 == 3 { muxide::codec::h264::default_avc_config().sps } else { filler(c.pset_len.0 as usize, 0x51, 3) },
         pps: if c.codec % 4 == 0 && c.pset_len.0 % 7 == 3 { muxide::codec::h264::default_avc_config().pps } else { filler(c.pset_len.1 as usize, 0x52, 3) },
         vps: filler(c.pset_len.2 as usize, 0x53, 3),
-        av1: obu(1, false, 0, true, 0, &seq.payload()),
+        // a third of the AV1 configurations hand over what an encoder's first temporal unit starts with: a temporal delimiter
+        // in front of the sequence header (the record's configOBUs still have to start with the sequence header)
+        av1: if c.width % 3 == 1 { [obu(2, false, 0, true, 0, &[]), obu(1, false, 0, true, 0, &seq.payload())].concat() } else { obu(1, false, 0, true, 0, &seq.payload()) },
         vp9: Vp9Lite {
             width: 640,
             height: 480,
@@ -424,6 +426,37 @@ pub fn frag_case_strategy(max_ops: usize) -> impl Strategy<Value = FragCase> {
             pset_len,
             ops,
             const_interval,
+        })
+        .prop_flat_map(|c| (Just(c), 0u8..12, 1u32..1400, any::<u16>()))
+        .prop_map(|(mut c, sel, k, pick)| {
+            // near-constant cadence: every interval is d except one early/late pair (d - k, d + k) whose errors cancel, so the
+            // first interval, the last interval and the total all look like a constant-rate fragment
+            let writes: Vec<usize> = c.ops.iter().enumerate().filter(|(_, g)| matches!(g, FGene::Write { .. })).map(|(i, _)| i).collect();
+            if sel >= 3 || writes.len() < 5 {
+                return c;
+            }
+            let d = [3000u32, 3003, 1500, 3754][(pick % 4) as usize];
+            for &i in &writes {
+                if let FGene::Write { ddts, back, .. } = &mut c.ops[i] {
+                    *ddts = d;
+                    *back = None;
+                }
+            }
+            let n = writes.len();
+            let j = 2 + ((pick as usize * (n - 4)) >> 16);
+            if let FGene::Write { ddts, .. } = &mut c.ops[writes[j]] {
+                *ddts = d - k;
+            }
+            if let FGene::Write { ddts, .. } = &mut c.ops[writes[j + 1]] {
+                *ddts = d + k;
+            }
+            c.const_interval = None;
+            if sel == 0 {
+                // one single fragment
+                c.ops.retain(|g| !matches!(g, FGene::Flush));
+                c.ops.push(FGene::Flush);
+            }
+            c
         })
 }
 
